@@ -97,14 +97,28 @@ pub mod unit_nuts {
 
     #[verifier::exec_allows_no_decreases_clause]
     fn find_reasonable_epsilon<B: AutodiffBackend, GTarget: GradientTarget<B>>(position: Tensor<B, 1>, mom: Tensor<B, 1>, gradient_target: &GTarget) -> (r: T)
-        ensures true
+        ensures val(r) is Fin && val(r)->Fin_0 > 0real       // [C04.initial_step_size_is_positive_and_finite]
     //@body id=nuts_find_eps file=src/nuts.rs name=find_reasonable_epsilon props=C04,C14
     //@sig fn find_reasonable_epsilon < B , T , GTarget > (position : Tensor < B , 1 > , mom : Tensor < B , 1 > , gradient_target : & GTarget ,) -> T where T : Float + Element , B : AutodiffBackend , GTarget : GradientTarget < T , B > + Sync ,
     //@rules R-lit R-destruct
     //@loop 1
     //@| invariant v1(ulogp_prime).len() == 1, v1(ulogp).len() == 1,
+    //@|     val(k) is Fin && val(k)->Fin_0 > 0real, val(half) == XR::Fin(1real / 2real), val(epsilon) == XR::Fin(1real),
+    //@anchor e0 scope=fn pos=after match="^epsilon = half \\* k \\* epsilon"
+    //@| proof { assert(val(epsilon) is Fin && val(epsilon)->Fin_0 > 0real) by(nonlinear_arith) requires val(epsilon) == XR::Fin((1real / 2real) * val(k)->Fin_0 * 1real), val(k)->Fin_0 > 0real; }
     //@loop 2
     //@| invariant v1(ulogp_prime).len() == 1, v1(ulogp).len() == 1,
+    //@|     val(epsilon) is Fin && val(epsilon)->Fin_0 > 0real, val(a) == XR::Fin(1real) || val(a) == XR::Fin(-1real),
+    //@anchor e1a scope=loop:2 pos=start
+    //@| let ghost e_old = epsilon;
+    //@anchor e1 scope=loop:2 pos=after match="^epsilon = epsilon \\* T :: from"
+    //@| proof {
+    //@|     broadcast use ax_powf_pos;
+    //@|     let pw = powf_r(2real, val(a)->Fin_0);
+    //@|     assert(pw > 0real);
+    //@|     assert(val(epsilon) == XR::Fin(val(e_old)->Fin_0 * pw));
+    //@|     assert(val(e_old)->Fin_0 * pw > 0real) by(nonlinear_arith) requires val(e_old)->Fin_0 > 0real, pw > 0real;
+    //@| }
     //@end
 
     fn all_real<B: AutodiffBackend, X>(x: Tensor<B, 1>) -> (r: bool)
@@ -322,6 +336,88 @@ pub mod unit_nuts {
             vstd::arithmetic::power2::lemma_pow2_unfold(j);
         }
     }
+    /// the acceptance statistic of a tree is a finite number in [0, n_alpha] whatever the energies are (min(1, NaN) = 1)
+    pub proof fn lemma_bt_alpha<B: AutodiffBackend, G: GradientTarget<B>>(t: &G, p: Pt, logu: XR, v: int, j: nat, eps: XR, joint0: XR, s: RngState)
+        ensures ({ let tr = bt::<B, G>(t, p, logu, v, j, eps, joint0, s).0; tr.alpha is Fin && 0real <= tr.alpha->Fin_0 <= tr.n_alpha as real && tr.n_alpha >= 1 })
+        decreases j
+    {
+        reveal_with_fuel(bt, 2);
+        if j == 0 {
+            let (p1, lp1) = lf::<B, G>(t, p, xr_mul(XR::Fin(v as real), eps));
+            let e = xr_exp(xr_sub(joint_of(lp1, p1.r), joint0));
+            assert(e is NaN || e is PosInf || (e is Fin && e->Fin_0 >= 0real)) by { broadcast use ax_exp_pos; }
+        } else {
+            let (t1, s1) = bt::<B, G>(t, p, logu, v, (j - 1) as nat, eps, joint0, s);
+            lemma_bt_alpha::<B, G>(t, p, logu, v, (j - 1) as nat, eps, joint0, s);
+            lemma_bt_alpha::<B, G>(t, if v == -1 { t1.minus } else { t1.plus }, logu, v, (j - 1) as nat, eps, joint0, s1);
+        }
+    }
+    /// the same for the state of the doubling loop after at least one doubling
+    pub proof fn lemma_outer_alpha<B: AutodiffBackend, G: GradientTarget<B>>(t: &G, eps: XR, logu: XR, joint0: XR, pol: bool, st0: OSt, k: nat)
+        requires k >= 1
+        ensures ({ let st = outer_iter::<B, G>(t, eps, logu, joint0, pol, st0, k); st.alpha is Fin && 0real <= st.alpha->Fin_0 <= st.n_alpha as real && st.n_alpha >= 1 })
+    {
+        let prev = outer_iter::<B, G>(t, eps, logu, joint0, pol, st0, (k - 1) as nat);
+        let u1 = val(unif_out(prev.rng));
+        let v: int = if xr_lt(u1, half()) == pol { 1 } else { -1 };
+        lemma_bt_alpha::<B, G>(t, if v == -1 { prev.minus } else { prev.plus }, logu, v, prev.j, eps, joint0, unif_next(prev.rng));
+    }
+    /// C04: adaptation parameters and state are finite, step size and averaged iterate positive
+    pub open spec fn da_ok<B: AutodiffBackend, G: GradientTarget<B>>(c: NUTSChain<Fl, B, G>) -> bool {
+        &&& val(c.epsilon) is Fin && rv(c.epsilon) > 0real && val(c.epsilon_bar) is Fin && rv(c.epsilon_bar) > 0real
+        &&& val(c.h_bar) is Fin && val(c.mu) is Fin && val(c.gamma) is Fin && rv(c.gamma) > 0real && val(c.kappa) is Fin && val(c.target_accept_p) is Fin && c.t_0 >= 1
+    }
+    pub open spec fn rv(f: Fl) -> real { val(f)->Fin_0 }
+    /// everything in da_ok that init_chain does not touch
+    pub open spec fn da_params_ok<B: AutodiffBackend, G: GradientTarget<B>>(c: NUTSChain<Fl, B, G>) -> bool {
+        &&& val(c.epsilon_bar) is Fin && rv(c.epsilon_bar) > 0real
+        &&& val(c.h_bar) is Fin && val(c.gamma) is Fin && rv(c.gamma) > 0real && val(c.kappa) is Fin && val(c.target_accept_p) is Fin && c.t_0 >= 1
+    }
+    /// the "step size not chosen yet" marker that NUTSChain::new stores (-1 up to machine epsilon)
+    pub open spec fn is_sentinel(e: Fl) -> bool { xr_le(xr_abs(xr_add(val(e), XR::Fin(1real))), XR::Fin(eps_r())) }
+    /// what NUTSChain::new builds satisfies the parameter part and carries the sentinel
+    pub proof fn lemma_new_chain_is_ready_for_init<B: AutodiffBackend, G: GradientTarget<B>>(c: NUTSChain<Fl, B, G>)
+        requires c.t_0 == 10 && val(c.gamma) == XR::Fin(1real / 20real) && val(c.kappa) == XR::Fin(3real / 4real)
+            && val(c.epsilon_bar) == XR::Fin(1real) && val(c.h_bar) == XR::Fin(0real) && val(c.epsilon) == XR::Fin(-1real), val(c.target_accept_p) is Fin
+        ensures da_params_ok(c) && is_sentinel(c.epsilon)
+    {
+        ax_eps();
+    }
+    /// one dual-averaging update keeps all of that: the step size stays positive and finite during and after warm-up
+    pub proof fn lemma_da_keeps_step_size_positive_finite<B: AutodiffBackend, G: GradientTarget<B>>(pre: NUTSChain<Fl, B, G>, post: NUTSChain<Fl, B, G>, alpha: Fl, n_alpha: int)
+        requires da_ok(pre), da_post::<B, G>(pre, post, alpha, n_alpha), val(alpha) is Fin, 0real <= rv(alpha) <= n_alpha as real, n_alpha >= 1
+        ensures da_ok(post)      // [C04.step_size_positive_and_finite_throughout]
+    {
+        broadcast use ax_exp_pos, ax_powf_pos, ax_sqrt;
+        let m1 = pre.m + 1;
+        let hb = da_hbar(pre.h_bar, m1, pre.t_0 as int, pre.target_accept_p, alpha, n_alpha);
+        assert(val(fl_div(fli(1), fli(m1 + pre.t_0 as int))) is Fin);
+        assert(val(fl_div(alpha, fli(n_alpha))) is Fin);
+        assert(val(hb) is Fin);
+        if m1 <= pre.n_discard {
+            assert(val(mk(xr_sqrt(XR::Fin(m1 as real)))) is Fin);
+            assert(val(fl_div(mk(xr_sqrt(XR::Fin(m1 as real))), pre.gamma)) is Fin);
+            let e1 = da_eps(pre.mu, m1, pre.gamma, hb);
+            assert(val(e1) is Fin && rv(e1) > 0real);
+            let eta = mk(xr_powf(XR::Fin(m1 as real), val(fneg(pre.kappa))));
+            assert(val(eta) is Fin);
+            assert(val(fln(pre.epsilon_bar)) is Fin && val(fln(e1)) is Fin);
+            let eb = da_eps_bar(pre.epsilon_bar, e1, m1, pre.kappa);
+            assert(val(eb) is Fin && rv(eb) > 0real);
+        }
+    }
+    /// ... hence every transition keeps it (the acceptance statistic of the last doubling is finite, lemma_outer_alpha)
+    pub proof fn lemma_step_keeps_step_size_positive_finite<B: AutodiffBackend, G: GradientTarget<B>>(pre: NUTSChain<Fl, B, G>, post: NUTSChain<Fl, B, G>)
+        requires da_ok(pre), nuts_step_post::<B, G>(pre, post)
+        ensures da_ok(post)      // [C04.every_transition_keeps_the_step_size_positive_and_finite]
+    {
+        let (k, pol) = choose |k: nat, pol: bool| #[trigger] nuts_step_at::<B, G>(pre, post, k, pol);
+        let (st0, logu, joint0) = trans_start::<B, G>(&pre.target, v1(pre.position), state(pre.rng));
+        lemma_outer_alpha::<B, G>(&pre.target, val(pre.epsilon), logu, joint0, pol, st0, k);
+        let last = outer_iter::<B, G>(&pre.target, val(pre.epsilon), logu, joint0, pol, st0, k);
+        lemma_da_keeps_step_size_positive_finite::<B, G>(pre, post, mk(last.alpha), last.n_alpha as int);
+    }
+
     /// every point of the tree lives in the space of the start point (vector lengths are kept by leapfrog)
     pub proof fn lemma_bt_lens<B: AutodiffBackend, G: GradientTarget<B>>(t: &G, p: Pt, logu: XR, v: int, j: nat, eps: XR, joint0: XR, s: RngState)
         ensures ({ let tr = bt::<B, G>(t, p, logu, v, j, eps, joint0, s).0; tr.cx.len() == p.x.len() && tr.minus.x.len() == p.x.len() && tr.plus.x.len() == p.x.len() })
@@ -444,6 +540,18 @@ pub mod unit_nuts {
         &&& h.len() == total + 1 && h[0] == first && h[total] == last
         &&& forall |i: int| 0 <= i < total ==> #[trigger] nuts_step_post::<B, G>(h[i], h[i + 1])
     }
+    /// ... and so does every state of a run's history: the step size is positive and finite throughout a run
+    pub proof fn lemma_run_keeps_step_size_positive_finite<B: AutodiffBackend, G: GradientTarget<B>>(h: Seq<NUTSChain<Fl, B, G>>, first: NUTSChain<Fl, B, G>, last: NUTSChain<Fl, B, G>, total: int, i: int)
+        requires nuts_hist_ok::<B, G>(h, first, last, total), da_ok(first), 0 <= i <= total
+        ensures da_ok(h[i])      // [C04.step_size_positive_and_finite_throughout_a_run]
+        decreases i
+    {
+        if i > 0 {
+            lemma_run_keeps_step_size_positive_finite::<B, G>(h, first, last, total, i - 1);
+            assert(nuts_step_post::<B, G>(h[i - 1], h[i - 1 + 1]));
+            lemma_step_keeps_step_size_positive_finite::<B, G>(h[i - 1], h[i]);
+        }
+    }
     /// what init_chain does to the chain: stores the run lengths, draws dim normals, finds eps0 on first use only,
     /// sets the shrinkage point mu = ln(10 eps); the position and the warm-up counter m are NOT touched
     pub open spec fn init_rel<B: AutodiffBackend, G: GradientTarget<B>>(pre: NUTSChain<Fl, B, G>, post: NUTSChain<Fl, B, G>, n_collect: int, n_discard: int) -> bool {
@@ -556,9 +664,19 @@ pub mod unit_nuts {
                 init_rel::<B, GTarget>(*old(self), *final(self), n_collect as int, n_discard as int),              // [C04.init_chain_eps0_on_first_use_mu_is_ln_10_eps_counter_kept]
                 r.0 == v1(old(self).position).len(), tdim2(r.1) == (n_collect as int, r.0 as int),
                 v2(r.1)[0] == v1(old(self).position),                                                                // [C09.nuts_first_kept_draw_is_the_current_state]
+                da_params_ok(*old(self)) && (is_sentinel(old(self).epsilon) || (val(old(self).epsilon) is Fin && rv(old(self).epsilon) > 0real)) ==> da_ok(*final(self)),   // [C04.init_chain_establishes_a_positive_finite_step_size]
         //@body id=nuts_init_chain file=src/nuts.rs impl_self=NUTSChain name=init_chain props=C04,C09,C14
         //@sig fn init_chain (& mut self , n_collect : usize , n_discard : usize) -> (usize , Tensor < B , 2 >)
         //@rules R-sampleiter
+        //@anchor fin scope=fn pos=before match="^\\(dim , sample\\)"
+        //@| proof {
+        //@|     if da_params_ok(*old(self)) && (is_sentinel(old(self).epsilon) || (val(old(self).epsilon) is Fin && rv(old(self).epsilon) > 0real)) {
+        //@|         assert(val(self.epsilon) is Fin && rv(self.epsilon) > 0real);
+        //@|         assert(val(self.mu) == xr_ln(XR::Fin(10real * rv(self.epsilon))));
+        //@|         assert(val(self.mu) is Fin);
+        //@|         assert(da_ok(*self));
+        //@|     }
+        //@| }
         //@end
 
         #[verifier::exec_allows_no_decreases_clause]
